@@ -5,6 +5,7 @@ Source reference representation data structure.
 # pylint: disable=W0603
 
 import os
+import tokenize
 from dataclasses import dataclass
 from typing import Tuple
 import inspect
@@ -76,15 +77,15 @@ class SourceRef:
             # Sources are listed by base name; re-read when another file of that name is used,
             # or when the file was changed since it was read (edited and compiled again).
             if filename not in USED_SOURCES or _SOURCE_PATHS.get(filename) != stamp:
-                with open(
-                    f"{backend_frame.f_code.co_filename}", encoding="utf-8"
-                ) as file:
+                # tokenize.open: the encoding the interpreter itself used for this file (byte
+                # order mark, PEP 263 declaration, UTF-8 otherwise)
+                with tokenize.open(backend_frame.f_code.co_filename) as file:
                     src = file.read()
                 USED_SOURCES[filename] = src
                 _SOURCE_PATHS[filename] = stamp
             else:
                 src = USED_SOURCES[filename]
-        except OSError:
+        except (OSError, SyntaxError, UnicodeError):
             return 0, 0
 
         # Python numbers source lines by "\n" only; str.splitlines() would also split at form
